@@ -170,7 +170,18 @@ let handle_smtp (kind : string) (ins : string list) (outs : string list) : bool 
              let add x = if not (List.mem x !v) then v := x :: !v in
              let m_replies = ref [] and m_deliv = ref [] and ent_all = ref [] in
              List.iteri (fun idx stream ->
-               let ((items, tr), _) = run_bytes c o (f stream) in
+               (* stream field: hex chunks separated by '~' (a pause longer than the idle timeout), optionally
+                  "!idle" / "!err" for how the connection ends; a plain hex field is one chunk ended by EOF *)
+               let (body, fin) = match String.index_opt stream '!' with
+                 | Some i -> (String.sub stream 0 i,
+                              (match String.sub stream (i + 1) (String.length stream - i - 1) with
+                               | "idle" -> FIdle | "err" -> FErr | _ -> FEof))
+                 | None -> (stream, FEof) in
+               let chunks = List.map f (String.split_on_char '~' body) in
+               let ((items, tr), _) =
+                 match chunks, fin with
+                 | [w], FEof -> run_bytes c o w
+                 | _ -> run_net c o chunks fin in
                m_replies := show_replies (replies_of tr) :: !m_replies;
                m_deliv := !m_deliv @ deliveries_of tr;
                let ir = parse_replies (try List.nth impl_replies idx with _ -> "-") in
